@@ -36,6 +36,7 @@ def run(tier):
                          {"bnf": r["text"], "rc": r["rc"]})
             continue
         eqv = r["lexeq"].split()[0]
+        stats["verified_equivalent"] = stats.get("verified_equivalent", 0) + r["lexeq"].startswith("eq verified")
         stats["ref_equiv" if eqv == "eq" else ("cyclic" if eqv == "cyclic" else "ref_diff")] += 1
         tabs_equal = r.get("impl_tab") == r.get("model_probe_tab")
         stats["tables_equal"] += tabs_equal
